@@ -150,13 +150,16 @@ ADDENDA = {
     'C14': ('expansion of the arguments completing zero-argument super() to the frame\'s __class__ cell and first argument; imported policy-chain rules (C13)', ''),
     'C15': ('module-state rule over every function on the recovery path (SRC-NOSTATE); compiled-pattern substitutions count as context-free edits', ''),
     'C16': ('imported cache-key rule (C10): user-requested and recursive conversions are cached apart', ''),
-    'C17': ('provenance of Literal values (TREE-LITERAL); no-__wrapped__ rule on the chain that creates the loaded function', ''),
+    'C17': ('provenance of Literal values (TREE-LITERAL); no-__wrapped__ rule on the chain that creates the loaded function; return-case analysis of every statement handler of the tree transformers and attribute-store tracking of shortened user blocks (TREE-NONEMPTY)',
+            ' No generated compound statement has an empty statement list: statement handlers never delete a statement, and a shortened user block embedded as a whole body gets a pass.'),
     'C18': ('imported clean-copy rules of the template machinery (C17)', ''),
     'C19': ('value-type check of the type map; imported CFG rules (C05) and parameter / traversal rules (C08)', ''),
     'C20': ('reaching-definition check that the rendered feature collection is the unmodified parameter', ''),
 }
-THOROUGH = (' Thorough tier: the same rules, re-evaluated on two behaviour-preserving twins of the current tree (re-printed; locals renamed) whose verdict must agree, '
-            'and on scratch copies carrying each confirmed seeded change of the property that still applies, each of which must be reported (a missed control is ANALYSIS-ERROR).')
+THOROUGH = (' Thorough tier: the same rules, re-evaluated on three behaviour-preserving twins of the current tree (re-printed; locals renamed; methods reordered) whose verdict must agree, '
+            'on scratch copies carrying each confirmed seeded change of the property that still applies, each of which must be reported, '
+            'and on scratch copies carrying each recorded behaviour-preserving refactoring of the property, none of which may add a violation '
+            '(a missed control or an alarm on a refactoring is ANALYSIS-ERROR).')
 
 NOT_APPLICABLE = {
     'C12': 'quantifies over run-time tracebacks, generated line layout and source-map contents, which exist only after the pipeline has run on a program; the only shape-level clause (exception re-creation table) is too small a part to claim the property through (DESIGN.md section 5)',
